@@ -450,7 +450,64 @@ def gen_same_instant_pairs(rng, nz):
                 yield {"op": "findn", "a": ff}
 
 
+def gen_many_types_zone(rng):
+    """a table zone with 9..16 local time types, all used, distinct offsets"""
+    nt = rng.randint(9, 16)
+    offs = rng.sample(range(-43200, 50400, 900), nt)
+    ty = [{"off": o, "dst": i % 2, "des": B(rng.choice(DESIGS))} for i, o in enumerate(offs)]
+    t = rng.randint(-10**9, 10**9)
+    tr = []
+    order = list(range(nt)) + [rng.randrange(nt) for _ in range(6)]
+    rng.shuffle(order)
+    for ix in order:
+        tr.append([t, ix])
+        t += rng.choice([3600, 86400, 10**6, rng.randint(1800, 10**7)])
+    return {"tr": tr, "ty": ty, "lp": [], "rule": rng.choice([{"k": "none"}, {"k": "fixed", "t": dict(ty[tr[-1][1]])}])}
+
+
+def gen_same_rule_family(rng, do_findn=False):
+    """zones that share rule days and local switch times but differ in UT offsets, searched one after the other at the same local times"""
+    base = corpus_rule(rng.choice([0, 1, 2]))
+    y = rng.randint(1990, 2100)
+    locals_ = []
+    for shift in (0, 3600, -3600, 7200):
+        r = {k: (dict(v) if isinstance(v, dict) else v) for k, v in base.items()}
+        r["std"]["off"] += shift; r["dst"]["off"] += shift
+        z = {"tr": [], "ty": [dict(r["std"]), dict(r["dst"])], "lp": [], "rule": r}
+        yield zone_event(z)
+        if not locals_:
+            for T, o in ((rule_S(base, y), base["std"]["off"]), (rule_E(base, y), base["dst"]["off"])):
+                locals_ += [T + o + d for d in (-1800, -1, 0, 1800, 3599, 3600, 5400)]
+        for L in locals_:
+            f = fields_of_local(L, 0)
+            if do_findn:
+                f["n"] = 3
+                yield {"op": "findn", "a": f}
+            else:
+                yield {"op": "find", "a": f}
+            yield {"op": "lookup", "a": {"u": W(L - r["std"]["off"]), "via": "ref"}}
+
+
+def new_year_rule(rng):
+    """a rule whose transitions fall at or next to the calendar-year boundary, with ordinary day times (0..24h)"""
+    so = rng.choice([0, 3600, -18000, 36000, 43200, -39600])
+    do = so + rng.choice([3600, 1800, -3600])
+    near = [["J", 365], ["Z", 364], ["Z", 365], ["J", 1], ["Z", 0], ["M", 12, 5, rng.randint(0, 6)], ["M", 1, 1, rng.randint(0, 6)], ["J", 364], ["J", 2]]
+    far = [["M", rng.randint(4, 9), rng.randint(1, 5), rng.randint(0, 6)], ["J", rng.randint(100, 250)], ["Z", rng.randint(100, 250)]]
+    a, b = (rng.choice(near), rng.choice(far)) if rng.random() < 0.6 else (rng.choice(near), rng.choice(near))
+    if rng.random() < 0.5:
+        a, b = b, a
+    tm = lambda: rng.choice([0, 1800, 7200, 84600, 86399, 86400, 3600, 82800])
+    return {"k": "alt", "std": {"off": so, "dst": 0, "des": B("STD")}, "dst": {"off": do, "dst": 1, "des": B("DST")}, "sd": a, "st": tm(), "ed": b, "et": tm()}
+
+
 def gen_find_zones(rng, nzones, findn=False):
+    for i in range(max(6, nzones // 10)):
+        yield from gen_rule_zone_session(rng, new_year_rule(rng), with_table=(i % 3 == 2), do_find=True, do_findn=findn, nprobe=20)
+    for _ in range(max(3, nzones // 25)):
+        yield from gen_zone_session(rng, gen_many_types_zone(rng), nprobe=40, do_find=True, do_findn=findn, lookups=not findn)
+    for _ in range(max(2, nzones // 60)):
+        yield from gen_same_rule_family(rng, do_findn=findn)
     if not findn:
         yield from gen_range_end_finds(rng, max(10, nzones // 10))
     else:
@@ -486,6 +543,18 @@ def gen_range_end_finds(rng, n):
                 L = max(MINT, min(MAXT, L))
                 yield {"op": "find", "a": fields_of_local(L, rng.choice([0, 999999999]))}
         yield {"op": "find", "a": {"y": I32MAX, "mo": 12, "d": 31, "h": 23, "mi": 59, "s": 60, "ns": 0}}
+
+
+def gen_nanos_zone(rng, nz):
+    """total nanoseconds through a zone: counts around transition instants (also before 1970, where floor and truncation differ)"""
+    G = 10**9
+    for _ in range(nz):
+        z = gen_table_zone(rng, nmax=6, base=rng.choice([-10**9, -86400 * 365, 0, 10**9]), leaps=[])
+        yield zone_event(z)
+        for t, _ in z["tr"]:
+            for d in (-1, 0, 1):
+                for frac in (0, 1, G // 2, G - 1):
+                    yield {"op": "fromnanos", "a": {"N": W((t + d) * G + frac), "via": "zone", "type": {"off": 0, "dst": 0, "des": []}}}
 
 
 def gen_ns_validation(rng, n):
@@ -1036,6 +1105,9 @@ def gen_hostile_numbers(rng, n):
         ty = [{"off": rng.choice(ext32 + [rng.randint(I32MIN + 1, I32MAX)]), "dst": rng.randint(0, 1), "des": B(rng.choice(DESIGS))} for _ in range(ntypes)]
         times = sorted(set(rng.sample(ext64 + [rng.randint(I64MIN, I64MAX) for _ in range(4)], rng.randint(0, 6))))
         tr = [[t, rng.randrange(ntypes)] for t in times]
+        last_type = dict(ty[tr[-1][1]]) if tr else None
+        if tr and rng.random() < 0.15:
+            tr[rng.choice([-1, -1, 0])][1] = ntypes + rng.choice([0, 1, 250])          # out-of-range type index (must be refused, never indexed)
         lp = []
         if rng.random() < 0.4:
             r0 = rng.choice([0, I64MAX - 5 * 10**6, rng.randint(0, I64MAX - 10**8)])
@@ -1050,9 +1122,11 @@ def gen_hostile_numbers(rng, n):
         if k < 0.4 or not tr:
             rule = {"k": "none"}
         elif k < 0.7:
-            rule = {"k": "fixed", "t": dict(ty[tr[-1][1]])}
+            rule = {"k": "fixed", "t": last_type}
         else:
             rule = rand_rule(rng)
+            if rng.random() < 0.4:
+                rule[rng.choice(["sd", "ed"])] = rng.choice([["Z", 365], ["Z", 0], ["J", 365], ["J", 1], ["M", 12, 5, rng.randint(0, 6)], ["M", 1, 1, rng.randint(0, 6)]])
         z = {"tr": tr, "ty": ty, "lp": lp, "rule": rule}
         yield zone_event(z)
         for _ in range(6):
